@@ -350,6 +350,22 @@ MUTANTS += [
     ("c10-cached-inverse-bias-scaled", ["C10"], [(LIN, "            outputs = F.linear(inputs - self.bias, self.cache.inverse)", "            outputs = F.linear(inputs, self.cache.inverse, -self.bias)")], "CACHE-USE"),
 ]
 
+MUTANTS += [
+    ("c12-functional-dropout-default", ["C12"], [("nflows/nn/nets/resnet.py", "        temps = self.dropout(temps)\n        temps = self.linear_layers[1](temps)", "        temps = F.dropout(temps, p=0.1)\n        temps = self.linear_layers[1](temps)")], "BM-RNG"),
+    ("c12-noise-in-forward", ["C12"], [("nflows/transforms/nonlinearities.py", "        outputs = torch.tanh(inputs)\n", "        outputs = torch.tanh(inputs + 1e-6 * torch.randn_like(inputs))\n")], "BM-RNG"),
+]
+
+MUTANTS += [
+    ("c11o-not-threaded", ["C11"], [(ORT, "            outputs = outputs - temp", "            outputs = inputs - temp")], "ORTH-REV"),
+    ("c11o-inner-with-inputs", ["C11"], [(ORT, "            temp = outputs @ q_vector  # Inner product.", "            temp = inputs @ q_vector  # Inner product.")], "ORTH-REV"),
+    ("c11o-norm-multiplies", ["C11"], [(ORT, "temp = torch.ger(temp, (2.0 / squared_norm) * q_vector)  # Outer product.", "temp = torch.ger(temp, (2.0 * squared_norm) * q_vector)  # Outer product.")], "ORTH-REV"),
+    ("c11o-norms-of-other-axis", ["C11"], [(ORT, "        squared_norms = torch.sum(q_vectors ** 2, dim=-1)", "        squared_norms = torch.sum(q_vectors ** 2, dim=0)")], "ORTH-REV"),
+    ("c11o-norm-not-squared", ["C11"], [(ORT, "        squared_norms = torch.sum(q_vectors ** 2, dim=-1)", "        squared_norms = torch.sum(torch.abs(q_vectors), dim=-1)")], "ORTH-REV"),
+    ("c11o-added", ["C11"], [(ORT, "            outputs = outputs - temp", "            outputs = outputs + temp")], "ORTH-REV"),
+    ("c11o-inverse-flip-feature-axis", ["C11"], [(ORT, "        reverse_idx = torch.arange(self.num_transforms - 1, -1, -1)\n        return self._apply_transforms(inputs, self.q_vectors[reverse_idx])", "        return self._apply_transforms(inputs, self.q_vectors.flip(1))")], "ORTH-REV"),
+    ("c11o-inverse-same-order", ["C11"], [(ORT, "        return self._apply_transforms(inputs, self.q_vectors[reverse_idx])", "        return self._apply_transforms(inputs, self.q_vectors)")], "ORTH-REV"),
+]
+
 # ---- C11 LIN-WORD / LIN-LOGDET on the matrix-word algebra ----
 MUTANTS += [
     ("c11w-lu-weight-order", ["C11"], [(LU, "        return lower @ upper", "        return upper @ lower")], "LIN-WORD"),
@@ -397,6 +413,13 @@ MUTANTS += [
 ]
 
 BENIGN = [
+    ("b-c11o-outer-matmul", ["C11", "C13", "C16"], [(ORT, "            temp = outputs @ q_vector  # Inner product.\n            temp = torch.ger(temp, (2.0 / squared_norm) * q_vector)  # Outer product.", "            temp = torch.matmul(outputs, q_vector)\n            temp = torch.outer(temp, (2.0 / squared_norm) * q_vector)")]),
+    ("b-c11o-coefficient-on-projection", ["C11"], [(ORT, "            temp = torch.ger(temp, (2.0 / squared_norm) * q_vector)  # Outer product.", "            temp = torch.ger(2.0 * temp / squared_norm, q_vector)  # Outer product.")]),
+    ("b-c11o-coefficient-outside", ["C11"], [(ORT, "            temp = torch.ger(temp, (2.0 / squared_norm) * q_vector)  # Outer product.", "            temp = 2.0 * torch.ger(temp, q_vector) / squared_norm")]),
+    ("b-c11o-norm-pow", ["C11"], [(ORT, "        squared_norms = torch.sum(q_vectors ** 2, dim=-1)", "        squared_norms = q_vectors.pow(2).sum(dim=-1)")]),
+    ("b-c11o-norm-in-loop", ["C11"], [(ORT, "        for q_vector, squared_norm in zip(q_vectors, squared_norms):\n            temp = outputs @ q_vector  # Inner product.", "        for q_vector in q_vectors:\n            squared_norm = torch.dot(q_vector, q_vector)\n            temp = outputs @ q_vector  # Inner product.")]),
+    ("b-c11o-inverse-flip", ["C11"], [(ORT, "        reverse_idx = torch.arange(self.num_transforms - 1, -1, -1)\n        return self._apply_transforms(inputs, self.q_vectors[reverse_idx])", "        return self._apply_transforms(inputs, torch.flip(self.q_vectors, dims=[0]))")]),
+    ("b-c12-functional-dropout-mode", ["C12", "C13", "C15"], [("nflows/nn/nets/resnet.py", "        temps = self.dropout(temps)\n        temps = self.linear_layers[1](temps)", "        temps = F.dropout(temps, p=0.0, training=self.training)\n        temps = self.linear_layers[1](temps)")]),
     ("b-c10-cached-forward-matmul", ["C10", "C13", "C19"], [(LIN, "            outputs = F.linear(inputs, self.cache.weight, self.bias)", "            outputs = inputs @ self.cache.weight.t() + self.bias")]),
     ("b-c10-cached-inverse-matmul", ["C10", "C13"], [(LIN, "            outputs = F.linear(inputs - self.bias, self.cache.inverse)", "            outputs = torch.matmul(inputs - self.bias, self.cache.inverse.t())")]),
     ("b-c04-inline-embedding", ["C04", "C03", "C13"], [(FB, "        embedded_context = self._embedding_net(context)\n        noise, logabsdet = self._transform(inputs, context=embedded_context)\n        if self._context_used_in_base:\n            log_prob = self._distribution.log_prob(noise, context=embedded_context)", "        noise, logabsdet = self._transform(inputs, context=self._embedding_net(context))\n        if self._context_used_in_base:\n            log_prob = self._distribution.log_prob(noise, context=self._embedding_net(context))")]),
